@@ -4,9 +4,12 @@ from checks import enginelib as E
 from checks.enginelib import charts, shrink
 from checks import c01
 
-THEOREMS = []
-FINISH = {"level": "exploration"}   # upgraded to "proof" once the theorems of Properties/C03.lean are in place
-LEAN_FILES = ["UscxmlVerif.Properties.C03"]
+THEOREMS = [
+    ("UscxmlVerif.Properties.C03.both_engines_select_conflict_free_partial", "proved", "PARTIAL: both engine models select conflict-free transition sets on every chart and input (LargeMicroStep by checking candidates against the set so far, FastMicroStep through its accumulated pre-computed conflict sets)"),
+    ("UscxmlVerif.Properties.C03.both_engines_keep_configuration_a_set", "proved", "both engines keep the configuration ascending, duplicate-free and free of pseudo-states"),
+]
+FINISH = {"level": "exploration"}   # trace equality of the two engines is decided by running them side by side
+LEAN_FILES = ["UscxmlVerif.Properties.C03", "UscxmlVerif.Proofs.Select"]
 
 
 def run(ctx):
